@@ -31,7 +31,7 @@ Section Ref.
   Fixpoint eval_type (eo : string -> selset -> value -> path -> eres)
            (t : gtype) (ss : option selset) (v : value) (p : path) {struct t} : eres :=
     match t with
-    | TScalar _ | TEnum _ => (match v with VLeaf j => j | _ => JNull end, [])
+    | TScalar _ | TEnum _ => (match v with VLeaf l => leaf_json l | _ => JNull end, [])
     | TNonNull t' => eval_type eo t' ss v p
     | TList t' =>
         match v with
@@ -61,11 +61,11 @@ Section Ref.
     end.
 
   (** One selected field of an object whose field results are [fields]. *)
-  Definition eval_field (eo : string -> selset -> value -> path -> eres)
+  Definition eval_field (top : bool) (eo : string -> selset -> value -> path -> eres)
              (o : object) (fields : list (string * outcome value)) (p : path) (it : item) : (string * json) * list perr :=
     let h := fst it in
     let p' := p ++ [PKey (s_alias h)] in
-    if String.eqb (s_name h) "__typename" then ((s_alias h, JStr (o_name o)), [])
+    if negb top && String.eqb (s_name h) "__typename" then ((s_alias h, JStr (o_name o)), [])
     else
       match find_field (s_name h) (o_fields o), lookup (s_key h) fields with
       | Some f, Some (OOk v) => let r := eval_type eo (f_type f) (snd it) v p' in ((s_alias h, fst r), snd r)
@@ -87,19 +87,33 @@ Section Ref.
         match flatten fixed s with
         | Bad e => (JNull, [nest p e])
         | Ok items =>
-            match v, find_object oname (s_objects S) with
-            | VObj _ fields, Some o =>
-                let rs := map (eval_field (eval_obj fuel') o fields p) (items ++ key_item o) in
+            match find_object oname (s_objects S), v with
+            | None, _ => (JNull, [nest p err_invalid])
+            | Some o, VObj _ fields =>
+                let rs := map (eval_field false (eval_obj fuel') o fields p) (items ++ key_item o) in
                 (JObj (map fst rs), flat_map snd rs)
-            | VObj _ _, None => (JNull, [nest p err_invalid])
-            | _, _ => (JNull, [])
+            | Some _, _ => (JNull, [])
             end
         end
     end.
 
-  (** The whole query against the root object.  [Execute] returns either data or one error. *)
+  (** The whole query against the root object. *)
   Definition eval_ref (fuel : nat) (q : selset) (root : value) : eres :=
-    eval_obj fuel (s_query S) q root [].
+    match fuel with
+    | 0 => (JNull, [nest [] err_fuel])
+    | Datatypes.S fuel' =>
+        match flatten fixed q with
+        | Bad e => (JNull, [nest [] e])
+        | Ok items =>
+            match find_object (s_query S) (s_objects S), root with
+            | Some o, VObj _ fields =>
+                (* Executor.Execute: the root object has no __typename and no __key *)
+                let rs := map (eval_field true (eval_obj fuel') o fields []) items in
+                (JObj (map fst rs), flat_map snd rs)
+            | _, _ => (JNull, [nest [] err_invalid])
+            end
+        end
+    end.
 
   Definition needed_failures (fuel : nat) (q : selset) (root : value) : list perr := snd (eval_ref fuel q root).
 End Ref.
